@@ -449,6 +449,7 @@ func genC05Constructed(t *rapid.T) c05Case {
 	sc := genScript(t, scriptOpts{maxNodes: 3, maxDepth: 3, maxBody: 4})
 	lay := genLayout(t)
 	willBreak := rapid.Bool().Draw(t, "break")
+	lay.MixedEnds = lay.MixedEnds && !willBreak // (the edits below find lines by their LF)
 	if willBreak {
 		// (error recovery is quadratic in what follows the error: no very long lines behind a syntax error)
 		lay.LongNoise = min(lay.LongNoise, 300)
